@@ -153,9 +153,13 @@ def rule_a(ctx, out):
     if not rets:
         raise AnalysisError(f"{COMPARE} has no return statement")
     params = f.params
+    accepting = 0
     for r in rets:
         v = r.value
         first = v.elts[0] if isinstance(v, ast.Tuple) and v.elts else v
+        if isinstance(first, ast.Constant) and first.value is False:
+            continue    # a rejecting return (e.g. in an exception handler) needs no justification
+        accepting += 1
         conj = []
 
         def flat(e):
@@ -189,6 +193,8 @@ def rule_a(ctx, out):
                         f"the boolean returned by {COMPARE} does not include the conjunct `{what}`", where(f, r),
                         {"return": short(r)})
 
+    if not accepting:
+        raise AnalysisError(f"{COMPARE} has no accepting return")
     # --- verify_block_from_list_of_sfs covers every key ---------------------------
     vf = ctx.func("verification.sfs_verify.verify_block_from_list_of_sfs")
     _verify_block_rule(ctx, vf, out)
